@@ -344,7 +344,15 @@ def build(tree, rec: Rec):
             return ModularEnvironment(sensor(e[1]), actuator(e[2]))
         return EnvironmentWrapper(env(e[1]), wrap(e[2]), wrap(e[3]))
 
-    root = Interaction(agent(tree[1]), env(tree[2]))
+    a_obj = agent(tree[1])
+    if tree[2][0] == "EW" and (tree[2][2][1] if len(tree[2][2]) > 1 else 0) % 2 == 0:
+        # the user decorates the environment after the interaction has been put together
+        # (`interaction.environment = Wrapper(interaction.environment)`): the public attributes are what counts
+        inner = env(tree[2][1])
+        root = Interaction(a_obj, inner)
+        root.environment = EnvironmentWrapper(root.environment, wrap(tree[2][2]), wrap(tree[2][3]))
+    else:
+        root = Interaction(a_obj, env(tree[2]))
     # the composites are built: what the caller does with its own dictionaries afterwards (a builder
     # reusing one scratch dict for several groups) must not change what they consist of
     for d in scratch:
